@@ -28,8 +28,8 @@ def run(pid, tier, seed):
       # two structural facts of the failing case that the recorded findings are keyed on
       if ev.get("k") == "layer" and cl in ("preactivation_not_representable", "activation_outside_reported_type"):
         t, obs = (ev["acc"], ev["pre"]) if cl.startswith("pre") else (ev["it"], ev["x"])
-        top = max((abs(p[0]), p[1]) for p in obs if p[0] != 0) if any(p[0] != 0 for p in obs) else (0, 0)
-        mant, e = top
+        nz = [p for p in obs if p[0] != 0]
+        mant, e = max(((abs(p[0]), p[1]) for p in nz), key=lambda q: q[0] * 2.0 ** q[1]) if nz else (0, 0)   # the largest MAGNITUDE
         while mant and mant % 2 == 0:
           mant, e = mant // 2, e + 1
         ident["value_is_exactly_two_to_the_int_bits"] = bool(mant == 1 and e == t["int"] and not t["po2"])
